@@ -25,7 +25,7 @@ func init() { core.Register(check{}) }
 func (check) ID() string    { return "C05" }
 func (check) Level() string { return "model_checking" }
 func (check) Rule() string {
-	return "explicit-state search over PathNode histories on the real implementation: values = every shape of T(1) u T(2)-subset x container size {0,1,3} plus constructed maps of 16/17/33 int and string entries (hash slots: all distinct / chain in the middle / chain passing the table end, with slot 0 occupied or free; string keys constructed per process through the StrHash hook) and structs with ids around 255/256/257; configurations = {recurse, lazy} x all 2^4 of {StoreChildrenById, StoreChildrenByHash, NotScanParentNode, UseNativeSkip}; histories = Load ; [Load of another value on the same tree / pooled tree / after a load in the other mode] ; sequences of <=2 (thorough <=4: 1.3e7 states, 6.9e7 transitions) edits {SetField / SetByStr / SetByInt of present leaf and absent child, replace list element, clear child} on the root and on first-level containers, states deduplicated on the model; after every history: Marshal and MarshalIntoBuffer(dirty prefix) decode strictly to the model (byte-identical to the input for an unedited tree under default options), every lookup (Field / GetByStr / GetByInt, present and absent keys) returns the child last stored. A case = (value, configuration); non-trivial = it executed at least one transition. Later additions: histories replayed on a reused tree, clearing of raw-key children, insertion of the keys an empty slot would report, fill = one more fresh key than the map has entries. Round 10: structs with ids on the growth steps of the by-id table (16/32/64/128)."
+	return "explicit-state search over PathNode histories on the real implementation: values = every shape of T(1) u T(2)-subset x container size {0,1,3} plus constructed maps of 16/17/33 int and string entries (hash slots: all distinct / chain in the middle / chain passing the table end, with slot 0 occupied or free; string keys constructed per process through the StrHash hook) and structs with ids around 255/256/257; configurations = {recurse, lazy} x all 2^4 of {StoreChildrenById, StoreChildrenByHash, NotScanParentNode, UseNativeSkip}; histories = Load ; [Load of another value on the same tree / pooled tree / after a load in the other mode] ; sequences of <=2 (thorough <=4: 1.3e7 states, 6.9e7 transitions) edits {SetField / SetByStr / SetByInt of present leaf and absent child, replace list element, clear child} on the root and on first-level containers, states deduplicated on the model; after every history: Marshal and MarshalIntoBuffer(dirty prefix) decode strictly to the model (byte-identical to the input for an unedited tree under default options), every lookup (Field / GetByStr / GetByInt, present and absent keys) returns the child last stored. A case = (value, configuration); non-trivial = it executed at least one transition. Later additions: histories replayed on a reused tree, clearing of raw-key children, insertion of the keys an empty slot would report, fill = one more fresh key than the map has entries. Round 10: structs with ids on the growth steps of the by-id table (16/32/64/128). Round 11: edit nodes assembled through NewTypedNode."
 }
 func (check) Assumptions() []string {
 	return []string{"reference = ref/tbin", "struct field order and map entry order are not part of the value (by-id and hash storage reorder them): compared unordered; list/set order is compared", "replacing a PRESENT container child whose own children are loaded (recursive mode) is not in the alphabet: Node and Next of that child would disagree and the statement does not say which wins", "in lazy mode only the root is edited (children have no loaded Next)"}
